@@ -525,7 +525,7 @@ namespace {
          // -- C17: locations on every second statement of the tree (pre-order), with and without a column
          std::vector<std::array<long, 3>> locs;
          for (std::size_t k = 0; k < a.order.size(); ++k) {
-            if (k % 2 == 1) continue;
+            if (k % 3 == 1) continue;            // two statements out of three carry a location
             auto st = const_cast<ipr::Stmt*>(a.order[k]);
             long file = 2 + static_cast<long>(k), ln = 10 + 3 * static_cast<long>(k), col = (k % 4 == 0) ? 0 : 5 + static_cast<long>(k);
             ipr::Source_location loc;
